@@ -165,3 +165,65 @@ Proof.
   - pose proof (prepare_all_long mn mx (map (update us) tabs)) as P. rewrite long_enough_update in P.
     specialize (P L (length tabs) f O false). rewrite map_length in P. apply P; [lia|exact F].
 Qed.
+
+(* ------------------------------------------------------------------------------------------------------------ *)
+(* single sequence mode: no decision depends on a count that an update can change, and there is one table only;
+   updating = recompiling without any hypothesis on decisions or sharing *)
+Lemma root_enc_update_eq us t : root_enc (update us t) = root_enc t.
+Proof.
+  unfold root_enc. rewrite depth_update, is_vol_update.
+  destruct (is_vol (rep_of t)) eqn:V; [rewrite !orb_true_r; reflexivity|].
+  rewrite (cnt_update_fixed us t V). reflexivity.
+Qed.
+
+Lemma parse_aseq_single_update us t1 sa :
+  parse_aseq 0 [t1] st_empty = Ok sa ->
+  exists sa2, parse_aseq 0 [update us t1] st_empty = Ok sa2 /\ map snd (t_adv sa2) = map snd (t_adv sa).
+Proof.
+  rewrite !parse_aseq_unfold. cbn [t_wfs st_empty].
+  destruct (parse_entries 0 0 (kids t1) []) as [[[es wfs'] ps]|] eqn:E; [|discriminate].
+  destruct (parse_entries_update us _ _ _ _ _ _ _ E) as [es2 [R2 _]].
+  rewrite Proofs_parse.kids_update, R2. cbn [parse_aseq]. intros H. inversion H; subst sa.
+  eexists. split; [reflexivity|]. reflexivity.
+Qed.
+
+Lemma tabor_single_update us f mn mx t st w tr st' ms :
+  tabor_compile f (Some MSingle) mn mx t = Ok (st, w, tr) ->
+  counts_ok (update us t) = true ->
+  update_tabor us st = (st', ms) ->
+  exists st2, tabor_compile f (Some MSingle) mn mx (update us t) = Ok (st2, false, tr) /\
+              tab_view st' = tab_view st2 /\ w = false.
+Proof.
+  unfold tabor_compile. intros H1 C Hu. rewrite C. cbn [negb].
+  destruct (negb (counts_ok t)); [discriminate|].
+  rewrite (root_enc_update us t (root_enc_update_eq us t)), root_enc_update_eq.
+  set (t1 := if root_enc t then encapsulate t else t) in *.
+  assert (V1 : is_vol (rep_of t1) = false) by apply t1_not_vol.
+  rewrite depth_update, balanced_update, len_update.
+  destruct ((depth t1 =? 1) && balanced t1); [|discriminate]. destruct (mx <? len t1); [discriminate|].
+  rewrite parse_single_as_aseq in H1 by exact V1.
+  rewrite parse_single_as_aseq by (rewrite is_vol_update; exact V1).
+  destruct (parse_aseq 0 [t1] st_empty) as [sa|] eqn:P1; [|discriminate].
+  destruct (parse_aseq_single_update us t1 sa P1) as [sa2 [P2 Hs]]. rewrite P2.
+  inversion H1; subst st w tr. clear H1.
+  rewrite update_tabor_set_single in Hu. inversion Hu; subst st' ms.
+  destruct (update_tabor us sa) as [sa' ms'] eqn:U. cbn [fst snd].
+  destruct (tabor_recompile us [t1] sa sa2 sa' ms' P1 P2 Hs U) as [A _].
+  exists (set_single sa2). repeat split. rewrite !tab_view_set_single. exact A.
+Qed.
+
+Definition single_pt : pt := PSeq [PRep (EVar 1%N) false (PAtom 0%N); PAtom 1%N; PRep (EAdd (EVar 1%N) (EConst 1)) false (PAtom 0%N)].
+Lemma tabor_single_update_nonvacuous : exists t st w tr st' ms,
+  create_program single_pt [(1%N, 2)] [1%N] = Ok (Some t) /\
+  tabor_compile 100 (Some MSingle) 1 8 (cleanup t) = Ok (st, w, tr) /\
+  counts_ok (update [(1%N, 0)] (cleanup t)) = true /\
+  update_tabor [(1%N, 0)] st = (st', ms) /\ length ms = 2%nat.
+Proof.
+  destruct (create_program single_pt [(1%N, 2)] [1%N]) as [[t|]|] eqn:E; try (vm_compute in E; discriminate).
+  exists t.
+  destruct (tabor_compile 100 (Some MSingle) 1 8 (cleanup t)) as [[[st w] tr]|] eqn:C1;
+    [|vm_compute in E; inversion E; subst; vm_compute in C1; discriminate].
+  destruct (update_tabor [(1%N, 0)] st) as [st' ms] eqn:U. exists st, w, tr, st', ms.
+  vm_compute in E. inversion E; subst t. vm_compute in C1. inversion C1; subst st w tr.
+  vm_compute in U. inversion U; subst st' ms. repeat split; reflexivity.
+Qed.
